@@ -143,12 +143,13 @@ PROPS = {
                 "the queue unchanged | rate tier: arrival sequences (gaps 0,1ns,..,10s; 1-16 concurrent callers per instant) against the real ingress "
                 "handler with the injected clock, global vs route-override limiter compiled from text (rps incl. fractional, huge, nan, inf); for every "
                 "pair of admitted arrivals of one limiter #admitted in the window <= burst + rps*window; non-trivial = a refusal/eviction with a leased "
-                "message present, a straddling batch, a size exactly one above a limit, or >=burst+1 arrivals / a 429",
+                "message present, a straddling batch, a size exactly one above a limit, or >=burst+1 arrivals / a 429 || after-reload tier (shared with C18): (old, new) configuration pairs, the whole probe battery answered once under the old configuration, a real reload, then the battery again: an ingress request or an Admin publish above the route size limit in force (or refused for any other reason by a process started on the new configuration) must not be stored",
         "assumptions": [SAMPLED, "rate windows spanning a reload are not generated (excluded by the statement)"],
         "guards": ["202", "503", "413", "429", "evicted", "fanout-partial"],
         "parts": [{"engine": "front", "test": "TestProp_C12_Ingress", "quick": 2500, "thorough": 200000},
                   {"engine": "front", "test": "TestProp_C12_RateLimit", "quick": 2500, "thorough": 200000},
-                  {"engine": "front", "test": "TestProp_C12_StoreWiring", "quick": 32, "thorough": 640, "shards": {"quick": 16, "thorough": 16}}],
+                  {"engine": "front", "test": "TestProp_C12_StoreWiring", "quick": 32, "thorough": 640, "shards": {"quick": 16, "thorough": 16}},
+                  {"engine": "front", "test": "TestProp_C12_AfterReload", "quick": 1200, "thorough": 40000, "shards": {"quick": 8}}],
     },
     "C15": {
         "rule": "one fixed route set (pull, single/multi-target deliver, publish off, publish.direct off, managed route, outbound) under generated "
@@ -157,11 +158,12 @@ PROPS = {
                 "selector hints, target not allowed/ambiguous, publish disabled, payload max_body+1, bad base64, headers too large, invalid header "
                 "name/value, bad timestamps, blank id, duplicate id in batch incl. padded, id already queued) or a batch larger than the remaining depth; "
                 "oracle: all valid => 200, exactly those n messages stored with the given shape; otherwise non-2xx with code, item_index among the offending "
-                "positions, queue unchanged; non-trivial = batch >=3 with the first invalid item at position >=1, or an overflow with free capacity left",
+                "positions, queue unchanged; non-trivial = batch >=3 with the first invalid item at position >=1, or an overflow with free capacity left || after-reload tier (shared with C18): (old, new) configuration pairs, the whole probe battery answered once under the old configuration, a real reload, then the battery again: an ingress request or an Admin publish above the route size limit in force (or refused for any other reason by a process started on the new configuration) must not be stored",
         "assumptions": [SAMPLED, POSTGRES],
         "guards": ["accepted", "refused", "status-409", "status-413", "status-503"],
         "parts": [{"engine": "front", "test": "TestProp_C15_Publish", "quick": 3000, "thorough": 250000},
-                  {"engine": "front", "test": "TestProp_C15_PolicyReload", "quick": 400, "thorough": 20000, "shards": {"quick": 4}}],
+                  {"engine": "front", "test": "TestProp_C15_PolicyReload", "quick": 400, "thorough": 20000, "shards": {"quick": 4}},
+                  {"engine": "front", "test": "TestProp_C15_AfterReload", "quick": 1200, "thorough": 40000, "shards": {"quick": 8}}],
     },
     "C18": {
         "rule": "reload tier: (old, new) config pairs (new = old with 1-3 edits: route added/removed, auth kind/secret changed, pull path remapped, pull tokens "
